@@ -144,6 +144,34 @@ def check(run):
             broken.append(('correspondence', 'DE.Apply.step vs commit handler + SM worker (probe commit_apply)',
                            '%d disagreements; first on %s -> impl %s' % (len(mism), json.dumps(pairs[i][0]), json.dumps(pairs[i][1]))))
         run.cov['disagreements'] = len(mism)
+        # replicas batch the same committed log differently (a leader applies entry by entry, a follower that catches up applies
+        # its backlog in one chunk): on the REAL state machines (File and RocksDB) the per-entry results and the resulting
+        # store must not depend on the split into apply chunks (probe kv; cases of the kind C22 uses, every chunking)
+        from props import C22
+        kcases, _ = C22.gen_cases(run, False)
+        kcases = [c for c in kcases if len(c[1]) >= 2 and len(c[0]) >= 3]   # a delete and a CAS behind a put need 3 commands
+        def del_then_cas(c):   # a CAS on a key deleted earlier in the sequence: the case in which the batch overlay matters most
+            return any(a[0] == 1 and b[0] == 2 and a[1] == b[1] for i, a in enumerate(c[0]) for b in c[0][i + 1:])
+        hot = [c for c in kcases if del_then_cas(c)]; rest = [c for c in kcases if not del_then_cas(c)]
+        lim = 1200 if thorough else 360
+        hot = hot[:lim * 2 // 3]; step = max(1, len(rest) // max(1, lim - len(hot)))
+        kcases = hot + rest[::step][:lim - len(hot)]
+        dist['replica-batching-delete-then-cas'] = len(hot)
+        kouts = core.probe_parallel('kv', kcases, jobs=8)
+        kok = 0
+        for c, o in zip(kcases, kouts):
+            if isinstance(o, str):
+                broken.append(('harness', 'kv probe error', (json.dumps(c) + ' -> ' + o)[:300])); continue
+            kok += 1
+            for eng, name in ((0, 'File'), (1, 'RocksDB')):
+                ref = o[0][eng]
+                for sizes, obs in zip(c[1], o):
+                    if obs[eng][:3] != ref[:3]:
+                        violations.append({'class': 'state-depends-on-apply-batching', 'probe': 'kv', 'input': c, 'output': o,
+                                           'why': '%s state machine: the same commands %s give results/contents %s when applied in chunks %s but %s in chunks %s' % (name, json.dumps(c[0]), json.dumps(obs[eng][:2]), sizes, json.dumps(ref[:2]), c[1][0])})
+                        break
+        dist['replica-batching-cases(kv)'] = kok; dist['replica-batching-runs'] = sum(2 * len(c[1]) for c in kcases)
+        violations.sort(key=lambda v: len(json.dumps(v['input'])))
         dist['chunks-applied'] = sum(len(o[1]) for _, o in pairs)
         dist['config-entries-applied'] = sum(len(o[2]) for _, o in pairs)
         run.add_cases(len(pairs), len({json.dumps(c) for c, _ in pairs}), [{'case': pairs[j][0], 'impl': pairs[j][1]} for j in (0, len(pairs) - 1)], dist,
@@ -157,6 +185,14 @@ def replay(path):
     if r.get('kind') != 'counterexample':
         print('broken obligation:', [b['name'] for b in r.get('broken', [])]); return 1
     core.harness_build()
+    if r.get('probe') == 'kv':
+        c = r['input']; o = core.probe('kv', [c])[0]; bad = 0
+        for eng, name in ((0, 'File'), (1, 'RocksDB')):
+            for sizes, obs in zip(c[1], o):
+                if obs[eng][:3] != o[0][eng][:3]:
+                    print('VIOLATES (state-depends-on-apply-batching): %s, chunks %s vs %s: %s vs %s' % (name, sizes, c[1][0], json.dumps(obs[eng][:2]), json.dumps(o[0][eng][:2]))); bad = 1; break
+        if not bad: print('ok')
+        return bad
     out = core.probe('commit_apply', [r['input']])[0]
     print('implementation output:', json.dumps(out)); vs = oracle(r['input'], out)
     for v in vs: print('VIOLATES: %s — %s' % v)
